@@ -142,7 +142,7 @@ def run_case(case, backend, tol, rng):
         probe = Probe(mod.krylov_exp, rng)
         mod.krylov_exp = probe
         try:
-            res = runner(D.to_sequence_data(prob), cfg)
+            res = runner(D.to_sequence_data(prob, U_of_t=switch_U(case) if case.get("switch") else None), cfg)
         finally:
             mod.krylov_exp = probe.real
     stored = res.get_result_times("energy")
@@ -221,6 +221,119 @@ def check_case(ctx, case):
                       {"case": _ser(case), "measured": m, "finding_key": "energy-not-conserved-" + case["backend"]})
 
 
+# ---- constant drive, interaction matrix switching once (SLM-like) -----------------------------------------
+# Within each window of constant (drive, matrix) the reported energy / second moment must be constant AND equal
+# to the dense value of that window's Hamiltonian on the dense-evolved state.  Matrix query conventions (both
+# are what the code does; C01_sv_matrix_query_times / C02 trace): emu-sv takes U at the START of every step
+# (and U at the midpoint of step 0 for the Hamiltonian reported at t = 0); emu-mps takes U at the midpoint of
+# step 0 and at the START of every later step.  The energy reported at boundary k >= 1 uses the Hamiltonian of
+# step k-1.
+SW_SV_DENSE = 10.0      # |E - E_dense| / scale <= FLOOR + SW_SV_DENSE * steps * krylov_tolerance   (observed <= 0.02)
+SW_MPS_DENSE = 1e-4     # emu-mps (TDVP splitting + truncation on 2-7 atom chains), relative to scale; observed <= 2.3e-7
+
+
+def switch_U(case):
+    U = np.array(case["prob"]["U"], dtype=float)
+    sw = case["switch"]
+    Um = U.copy()
+    for j in sw["targets"]:
+        Um[j, :] = 0.0
+        Um[:, j] = 0.0
+    return lambda t: (Um if t < sw["t"] else U)
+
+
+def gen_switch_case(rng, tier_thorough):
+    backend = rng.choice(["sv", "mps"])
+    n = rng.choice([2, 3, 4, 5, 6, 7] if tier_thorough else [2, 3, 4, 5])
+    steps = rng.randint(4, 9)
+    dt = rng.choice([2.0, 5.0, 10.0])
+    case = make_problem(rng, n, chain=True)
+    prob = case["prob"]
+    # one drive window over the whole run
+    for key in ("omega", "delta", "phi"):
+        prob[key] = np.array([prob[key][0]] * steps)
+    prob["steps"] = steps
+    prob["times"] = [k * dt for k in range(steps + 1)]
+    k = rng.randint(1, steps - 1) if rng.random() < 0.85 else 0
+    t_sw = prob["times"][k] if rng.random() < 0.5 else prob["times"][k] + rng.uniform(0.05, 0.95) * dt
+    targets = sorted(rng.sample(range(n), rng.randint(1, min(2, n - 1)))) if n > 1 else [0]
+    case.update(backend=backend, tol=rng.choice([1e-8, 1e-10]) if backend == "sv" else rng.choice([1e-5, 1e-7]),
+                seed=rng.randrange(2 ** 31), windows=1, per=steps, switch={"t": t_sw, "targets": targets})
+    return case
+
+
+def check_switch_case(ctx, case):
+    import random
+    import scipy.linalg as sla
+    from props.c01 import dense_H
+
+    rng = random.Random(case["seed"])
+    try:
+        E, E2, norms, probe = run_case(case, case["backend"], case["tol"], rng)
+    except Exception as ex:  # noqa: BLE001
+        ctx.violation(f"{case['backend']} raised on a constant-drive input with a switching matrix: {ex!r}",
+                      {"case": _ser(case), "finding_key": "conservation-raises"})
+        return
+    prob = case["prob"]
+    n, steps, times = prob["n"], prob["steps"], prob["times"]
+    U_of_t = switch_U(case)
+    sv = case["backend"] == "sv"
+    mid0 = 0.5 * (times[0] + times[1])
+    queries = [times[k] if (sv or k > 0) else mid0 for k in range(steps)]
+    om, de, ph = prob["omega"][0], prob["delta"][0], prob["phi"][0]
+    Hs = [dense_H(om, de, ph, np.asarray(U_of_t(q))) for q in queries]
+    H_at0 = dense_H(om, de, ph, np.asarray(U_of_t(mid0)))   # both backends report t = 0 with U at the first midpoint
+    psi = np.zeros(2 ** n, dtype=complex)
+    psi[0] = 1.0
+    ref = [psi]
+    for k in range(steps):
+        psi = sla.expm(-1j * Hs[k] * (times[k + 1] - times[k]) * 1e-3) @ psi
+        ref.append(psi)
+    scale = 1.0 + float(np.abs(om).sum() / 2 + np.abs(de).sum() + np.triu(np.abs(prob["U"]), 1).sum())
+    # (1) equality with the dense value at every boundary
+    worst_d, worst_k = 0.0, 0
+    for k in range(steps + 1):
+        H = H_at0 if k == 0 else Hs[k - 1]
+        e = float(np.real(np.vdot(ref[k], H @ ref[k])))
+        e2 = float(np.real(np.vdot(H @ ref[k], H @ ref[k])))
+        d = max(abs(E[k] - e) / scale, abs(E2[k] - e2) / scale ** 2)
+        if d > worst_d:
+            worst_d, worst_k = d, k
+    # (2) constancy inside each window of constant (drive, matrix)
+    worst_c = 0.0
+    s = 0
+    while s < steps:
+        e_ = s + 1
+        while e_ < steps and np.array_equal(Hs[e_], Hs[s]):
+            e_ += 1
+        ks = list(range(s + 1, e_ + 1)) + ([0] if s == 0 and np.array_equal(H_at0, Hs[0]) else [])
+        ee, ee2 = [E[k] for k in ks], [E2[k] for k in ks]
+        worst_c = max(worst_c, (max(ee) - min(ee)) / scale, (max(ee2) - min(ee2)) / scale ** 2)
+        s = e_
+    unit = steps * case["tol"]
+    lim_c = FLOOR + (SV_ENERGY if sv else MPS_ENERGY) * unit
+    lim_d = (FLOOR + SW_SV_DENSE * unit) if sv else SW_MPS_DENSE
+    cal = ctx.extra.setdefault("calibration", {})
+    b = case["backend"]
+    cal[f"{b}:switch dE/(steps*tol)"] = max(cal.get(f"{b}:switch dE/(steps*tol)", 0.0), worst_c / unit)
+    kd = f"{b}:switch |E-dense|" + ("/(steps*tol)" if sv else " (relative)")
+    cal[kd] = max(cal.get(kd, 0.0), worst_d / unit if sv else worst_d)
+    nwin = 1 + sum(1 for k in range(1, steps) if not np.array_equal(Hs[k], Hs[k - 1]))
+    ctx.count_case({"kind": "switch", "backend": b, "n": n, "steps": steps, "tol": case["tol"], "windows": nwin,
+                    "t_switch": case["switch"]["t"], "const_err": worst_c, "dense_err": worst_d}, nontrivial=nwin >= 2)
+    hist = ctx.extra.setdefault("switch_distribution", {})
+    hk = f"{b}/windows={nwin}"
+    hist[hk] = hist.get(hk, 0) + 1
+    if worst_c > lim_c:
+        ctx.violation(f"{b}: energy / second moment not constant ({worst_c:.3g} relative, > {lim_c:.3g}) inside a window of "
+                      "constant drive and constant interaction matrix (matrix switches once during the run)",
+                      {"case": _ser(case), "finding_key": "energy-not-conserved-after-matrix-switch-" + b})
+    if worst_d > lim_d:
+        ctx.violation(f"{b}: reported energy / second moment at boundary {worst_k} differ from the dense value of that "
+                      f"window's Hamiltonian on the dense-evolved state ({worst_d:.3g} relative, > {lim_d:.3g})",
+                      {"case": _ser(case), "finding_key": "energy-wrong-after-matrix-switch-" + b})
+
+
 def _ser(case):
     c = dict(case)
     c["prob"] = {k: (v.tolist() if hasattr(v, "tolist") else v) for k, v in case["prob"].items()}
@@ -245,9 +358,11 @@ def run(ctx):
     common.standard_proof_stage(ctx, "C28", ["Properties/C28.vo"])
     pin_stage(ctx)
     for c in corpus_cases():
-        check_case(ctx, c)
+        (check_switch_case if c.get("switch") else check_case)(ctx, c)
     for _ in range(ctx.n(40, 500)):
         check_case(ctx, gen_case(ctx.rng, ctx.thorough()))
+    for _ in range(ctx.n(24, 300)):
+        check_switch_case(ctx, gen_switch_case(ctx.rng, ctx.thorough()))
     cal = ctx.extra.get("calibration", {})
     ok = all(v <= 1e-10 for k, v in cal.items() if k.endswith("antihermiticity_defect"))
     ctx.obligation("correspondence:captured krylov_exp operators of real runs are anti-Hermitian (random-vector probe)",
@@ -255,7 +370,11 @@ def run(ctx):
     ctx.rule = ("constant and piecewise-constant (1-3 windows of 2-5 steps) hand-built SequenceData, global or per-atom "
                 "drives with phases; emu-sv 2-12 atoms (random planar registers, krylov_tolerance 1e-8/1e-10), emu-mps "
                 "2-20 atoms (1D chains, 1/r^6 interactions, precision 1e-5/1e-7); Energy, EnergySecondMoment and "
-                "StateResult at every step boundary; every case is non-trivial")
+                "StateResult at every step boundary; every such case is non-trivial. Plus constant-drive runs (2-7 atom chains, "
+                "both backends) whose interaction matrix switches once (rows/columns of 1-2 atoms zero before t_switch, "
+                "on a grid time or inside a step): energy and second moment constant inside every window of constant "
+                "(drive, matrix) and equal to the dense value of the window's Hamiltonian on the dense-evolved state; "
+                "non-trivial = the run really has >= 2 matrix windows")
     ctx.trusted_base += ["C06_H_hermitian / mpo_hermitian for the Hermiticity of the two Hamiltonians",
                          "source pin + random-vector probe tie the Coq lemmas' operator shapes to the code"]
     ctx.assumptions += [
@@ -269,7 +388,8 @@ def run(ctx):
 def replay(ctx, path):
     rp = json.load(open(path))
     if "case" in rp:
-        check_case(ctx, _deser(rp["case"]))
+        c = _deser(rp["case"])
+        (check_switch_case if c.get("switch") else check_case)(ctx, c)
 
 
 META = {
